@@ -145,9 +145,11 @@ class Actor:
     # pyrtma.Client sends 0/0)
     ctl_dest = (0, 0)
 
+    ctl_extra = {}
+
     def _ctl(self, mt, t):
         dm, dh = self.ctl_dest
-        self.send(mt, C.pack_sub(t), dest_mod=dm, dest_host=dh)
+        self.send(mt, C.pack_sub(t), dest_mod=dm, dest_host=dh, **self.ctl_extra)
 
     def subscribe(self, t):
         self._ctl(C.MT_SUBSCRIBE, t)
